@@ -1,6 +1,6 @@
 (* C18 - PRM roadmap is a faithful graph and queries are complete on it. *)
 From Coq Require Import ZArith NArith List Bool Floats.
-From OX Require Import Numerics.FloatBits Planners.Model Proofs.ValidInv Proofs.TreeInv Proofs.PrmInv Proofs.ApiStruct Proofs.PrmComplete.
+From OX Require Import Numerics.FloatBits Planners.Model Proofs.ValidInv Proofs.TreeInv Proofs.PrmInv Proofs.ApiStruct Proofs.PrmComplete Proofs.PrmMinimal.
 Import ListNotations.
 
 Section C18.
@@ -65,11 +65,19 @@ Theorem C18_query_complete : forall b p v rm s0 rest,
   sc = [] \/ gi = [] \/ forall g, connected rm sc g -> mem_nat g gi = false.
 Proof. exact (prm_query_complete dist interp lvs valid goal starts radius). Qed.
 
-End C18.
+(* hop-minimality: the returned chain has no more milestones than ANY directed walk of the roadmap graph
+   from a start connection to a goal milestone (BFS level invariant; the doubly seeded queue is harmless) *)
+Theorem C18_query_minimal : forall b p v rm s0 rest path,
+  starts p = s0 :: rest ->
+  prm_query dist interp lvs valid goal starts radius b p v rm = RPath path ->
+  forall (l : list nat) a g,
+    hd_error l = Some a -> In a (start_conns dist interp lvs valid radius v s0 rm 0) ->
+    last l a = g -> mem_nat g (goal_idxs goal p rm 0) = true ->
+    gwalk rm l ->
+    length path <= Datatypes.S (length l).
+Proof. exact (prm_query_minimal dist interp lvs valid goal starts radius). Qed.
 
-(* NOT proved (prm_minimal_partial): that the returned chain visits the fewest milestones possible
-   (BFS layer argument with the doubly seeded queue).  Covered exhaustively on small obstacle-free
-   roadmaps by the direct oracle (independent multi-source BFS on the real snapshot). *)
+End C18.
 
 Print Assumptions C18_roadmap_is_a_graph.
 Print Assumptions C18_roadmap_holds_valid_samples.
@@ -77,3 +85,4 @@ Print Assumptions C18_construct_twice.
 Print Assumptions C18_set_problem_definition.
 Print Assumptions C18_query_sound.
 Print Assumptions C18_query_complete.
+Print Assumptions C18_query_minimal.
